@@ -170,3 +170,46 @@ def is_attr(e, base, attr):
 
 def const_value(prog, module, e):
     return prog.try_fold(module, e)
+
+
+def block_env(stmts, target, env=None):
+    """Reaching simple definitions `name = expr` at `target` inside a statement list (descending into
+    the compound statement that contains the target). A definition is dropped as soon as one of the names
+    its right-hand side mentions (or the name itself) is stored again. Returns {name: expr} or None."""
+    from ..guards import contains
+    env = dict(env or {})
+
+    def kill(names):
+        for k in list(env):
+            if k in names or any(isinstance(x, ast.Name) and x.id in names for x in ast.walk(env[k])):
+                del env[k]
+    for s in stmts:
+        if s is target or (not isinstance(s, (ast.If, ast.For, ast.While, ast.With, ast.Try)) and contains(s, target)):
+            return env
+        if contains(s, target):
+            # stores in loop bodies may reach the head again: kill everything the loop stores first
+            if isinstance(s, (ast.For, ast.While)):
+                kill({x.id for x in ast.walk(s) if isinstance(x, ast.Name) and isinstance(x.ctx, ast.Store)})
+            for blk in ("body", "orelse", "finalbody"):
+                b = getattr(s, blk, None) or []
+                if any(contains(x, target) for x in b):
+                    return block_env(b, target, env)
+            for h in getattr(s, "handlers", []) or []:
+                if any(contains(x, target) for x in h.body):
+                    return block_env(h.body, target, env)
+            return env
+        stored = {x.id for x in ast.walk(s) if isinstance(x, ast.Name) and isinstance(x.ctx, ast.Store)}
+        if isinstance(s, ast.Assign) and len(s.targets) == 1 and isinstance(s.targets[0], ast.Name):
+            kill(stored)
+            if not any(isinstance(x, ast.Name) and x.id == s.targets[0].id for x in ast.walk(s.value)):
+                env[s.targets[0].id] = s.value
+        elif isinstance(s, ast.AnnAssign) and isinstance(s.target, ast.Name) and s.value is not None:
+            kill(stored)
+            env[s.target.id] = s.value
+        else:
+            kill(stored)
+    return None
+
+
+def spec_expr(text):
+    return ast.parse(text, mode="eval").body
